@@ -147,6 +147,7 @@ type Gen struct {
 	unrollTag    string
 	usedNames    map[string]bool
 	keepPhi      map[*ssa.Phi]bool
+	keepPhiLit   map[*ssa.Phi]string // literal value of a constant-step counter in the current unrolled iteration
 }
 
 func (g *Gen) ghostSortOf(name string) string {
@@ -1287,7 +1288,7 @@ func (g *Gen) walkUnrolled(li *loopInfo, body []*ssa.BasicBlock, n int) {
 			break
 		}
 		if len(li.spec.Inv) > 0 && iter == 0 {
-			base = &cutBaseState{heap: copyMap(g.heap), nextobj: g.nextobj}
+			base = &cutBaseState{heap: copyMap(g.heap), nextobj: g.nextobj, reach: g.reach}
 		}
 		if len(li.spec.Inv) > 0 {
 			// cut point: the invariant is checked, everything except constant-step counters is forgotten, and the
@@ -1313,6 +1314,28 @@ func (g *Gen) walkUnrolled(li *loopInfo, body []*ssa.BasicBlock, n int) {
 					}
 				}
 				g.keepPhi[phi] = constStep
+				if constStep {
+					// init + iter*step, as a numeral
+					var init, step *big.Int
+					for i, e := range phi.Edges {
+						if g.isBackEdge(h.Preds[i], h) {
+							if bo, ok := e.(*ssa.BinOp); ok && bo.Op == token.ADD {
+								step, _ = constOf(bo.Y)
+							} else {
+								step = nil
+							}
+						} else if c, ok := constOf(e); ok {
+							init = c
+						}
+					}
+					if init != nil && step != nil {
+						if g.keepPhiLit == nil {
+							g.keepPhiLit = map[*ssa.Phi]string{}
+						}
+						v := new(big.Int).Add(init, new(big.Int).Mul(step, big.NewInt(int64(iter))))
+						g.keepPhiLit[phi] = smtInt(v)
+					}
+				}
 			}
 			thisIter := iter
 			g.cutHook = func() {
@@ -1320,6 +1343,7 @@ func (g *Gen) walkUnrolled(li *loopInfo, body []*ssa.BasicBlock, n int) {
 				iterTags = append(iterTags, t)
 				g.tagOverride = t
 				if thisIter > 0 && base != nil {
+					g.reach = base.reach
 					// the state at the head of a later iteration is the loop-entry state with the loop's write set
 					// havocked (the same abstraction an invariant loop uses), not a chain through earlier iterations
 					g.heap = copyMap(base.heap)
@@ -1329,6 +1353,7 @@ func (g *Gen) walkUnrolled(li *loopInfo, body []*ssa.BasicBlock, n int) {
 			g.loopEntryEdges(li, ins)
 			g.cutHook = nil
 			g.keepPhi = nil
+			g.keepPhiLit = nil
 		} else {
 			for _, in := range h.Instrs {
 				if phi, ok := in.(*ssa.Phi); ok {
@@ -1576,6 +1601,7 @@ func (g *Gen) effTag() int {
 type cutBaseState struct {
 	heap    map[string]string
 	nextobj string
+	reach   string
 }
 
 const synTagBase = 1 << 20
